@@ -214,14 +214,14 @@ var plans = map[string]*plan{
 	},
 	"C16": {
 		Level: "fault_enumeration",
-		Rule: "teardown matrix in a synctest bubble (net.Pipe, 16 KiB rings): cause {DISCONNECT, abrupt close, keep-alive expiry in virtual time, protocol error, Server.Close} x buffer condition {idle; own outbound ring full because the subscriber stopped reading and the publisher's processor is parked in its WriteWait; publisher's inbound ring full as well; cross-blocked pair publishing to each other, both not reading} x order in which the two connections end x will present/absent x CleanSession 0/1 (160 cells). " +
+		Rule: "teardown matrix in a synctest bubble (net.Pipe, 16 KiB rings): cause {DISCONNECT, abrupt close, keep-alive expiry in virtual time, protocol error, Server.Close} x buffer condition {idle; own outbound ring full because the subscriber stopped reading and the publisher's processor is parked in its WriteWait; publisher's inbound ring full as well; cross-blocked pair publishing to each other, both not reading} x order in which the two connections end x will present/absent x CleanSession 0/1 (160 cells), plus 32 pipelined cells: the publisher's processor is parked on a delivery to a subscriber that stopped reading (decided on the processor's handled-packet events), the packet right behind the blocked PUBLISH is a DISCONNECT or a malformed packet, traffic of four packet sizes behind it keeps the publisher's inbound ring full and its receiver parked for space, then the subscriber reads again and the publisher's teardown must finish at the next quiescence. " +
 			"Oracle once every connection that had stopped reading has been ended: exactly one teardown-finished event per connection, wills seen by a witness exactly once unless the end was a DISCONNECT, a probe publish to the dead client's filter is acknowledged and reaches nobody, a clean session is gone, Server.Close returns, and a goroutine snapshot shows no frame of the library. A parked Server.Close or leftover goroutine is reported with its stack; a mutex deadlock (not durably blocked, so synctest.Wait cannot return) is caught by the process-wide deadlock watchdog. Window cells (real time): the yield hook delays a goroutine of the victim connection between its done-check and its Cond.Wait on the inbound ring (processor), the outbound ring (sender) or the outbound ring seen from a publisher blocked for space, and the connection is ended (abrupt / DISCONNECT / Server.Close) inside that window; teardown must still finish (stop.done event), decided by goroutine state otherwise. distinct = cells.",
 		Quick:          []batchSpec{{Test: "TestC16", N: 8, Timeout: 15 * m}, {Test: "TestC16Window", N: 3, Timeout: 15 * m}},
 		Thorough:       []batchSpec{{Test: "TestC16", N: 16, Timeout: 30 * m}, {Test: "TestC16Window", N: 6, Timeout: 30 * m}},
 		EvalStats:      []string{"c16.cells"},
-		Floors:         map[string]int64{"c16.cells": 160, "c16.window_cells": 25, "classes": 165},
-		FloorsThorough: map[string]int64{"c16.cells": 640, "c16.window_cells": 170, "classes": 165},
-		Exhaustive:     func(r *result) bool { return r.stats["c16.cells"] >= 160 },
+		Floors:         map[string]int64{"c16.cells": 192, "c16.pipelined_cells": 32, "c16.window_cells": 25, "classes": 195},
+		FloorsThorough: map[string]int64{"c16.cells": 768, "c16.pipelined_cells": 128, "c16.window_cells": 170, "classes": 195},
+		Exhaustive:     func(r *result) bool { return r.stats["c16.cells"] >= 192 },
 		Assumptions:    []string{"'bounded time' is decided at synctest quiescence (every goroutine durably blocked) plus goroutine-state inspection, not by a deadline", "read/write errors as a cause are exercised in C09 (chaos conn) and C05"},
 	},
 	"C17": {
